@@ -143,13 +143,19 @@ def run(ctx):
                 records.append(execute(fr, kinds, b))
                 ctx.count((json.dumps(fr, sort_keys=True), json.dumps(kinds, sort_keys=True), b),
                           any(NA in fr["cell"][c] for c in fr["cols"]))
+            # the boundary shape "exactly one column": the frame's first column alone (every third frame)
+            if len(fr["cols"]) > 1 and rng.random() < 0.34:
+                c0 = fr["cols"][0]
+                one = {"cols": [c0], "cell": {c0: fr["cell"][c0]}}
+                for b in BOUNDARIES:
+                    records.append(execute(one, {c0: kinds[c0]}, b))
     bad = ctx.validate("ConvertTrace", records)
     for i, clause in bad:
         ctx.fail(clause.rsplit(":", 1)[0], dict(sig_of(records[i]), detail=clause), {"rec": records[i]})
     for i in range(0, len(records), max(1, len(records) // 6)):
         ctx.sample(records[i])
     ctx.exhaustive = True
-    ctx.rule = ("every frame with 2 columns x 1..3 rows over cells {NA, v1, v2} (all 2^n missing masks incl. leading missing values and "
+    ctx.rule = ("every frame with 2 columns (a third of them also cut to their first column) x 1..3 rows over cells {NA, v1, v2} (all 2^n missing masks incl. leading missing values and "
                 "all-missing columns; TLC-enumerated) x %d random kind assignments over bool/int/float/str(short,long)/date/datetime x 4 "
                 "boundaries; the intermediate object is inspected with json.loads / pandas.isna / pyarrow is_null / plain dict access; "
                 "non-trivial = at least one missing value" % (1 if quick else 6))
